@@ -253,3 +253,39 @@ def same_state(g1, g2, ordered_nodes=True):
         if not found:
             return False
     return True
+
+
+class HarnessLimit(Exception):
+    """The code under test asked a derived (oracle-backed) map for something it cannot enumerate."""
+
+
+class DerivedSnapshots:
+    """Read-only snapshot counter computed from the timelines of the graph (Inv2 by construction), valid for runs of any
+    length: k in m  <=>  some interaction is present at k;  m[k] = 2 x their number.  Cannot be enumerated."""
+
+    def __init__(self, g):
+        self.g = g
+
+    def _cnt(self, k):
+        c = 0
+        for u, v, tl in timelines(self.g):
+            if sbool(inv.present_at(tl, k)):
+                c += 1
+        return c
+
+    def __contains__(self, k):
+        return self._cnt(k) > 0
+
+    def __getitem__(self, k):
+        c = self._cnt(k)
+        if c == 0:
+            raise KeyError(k)
+        return 2 * c
+
+    def get(self, k, default=None):
+        c = self._cnt(k)
+        return default if c == 0 else 2 * c
+
+    def _no(self, *a, **k):
+        raise HarnessLimit("derived snapshot counter cannot be enumerated or written")
+    __iter__ = __len__ = keys = values = items = __setitem__ = __delitem__ = _no
